@@ -37,7 +37,7 @@ func init() {
 		ID:    "C05",
 		Level: "fault_enumeration",
 		Rule: "random core-language programs with fault points (inj id) in every syntactic position (loop init/test/advance/body, let bindings and bodies, arguments, callee bodies at call depth 0-5, map/apply, hash literals, closures called later, inside an error-absorbing host callback (try (fn [] …)) that re-enters the VM through the public Apply and handles the error). " +
-			"For each program the fault-free run counts the n dynamic executions of inj; then for EVERY k<=n and each failure kind (host function returns an error; Go panic inside the host function) the program is run in a fresh interpreter with the k-th inj failing; additionally every static fault point is replaced by a form that fails to compile, a parse error is appended, and (thorough) every VM instruction index k of short programs is failed through the step hook. Host-API sequences of 24 steps (EvalString, LoadString+Run, several loads before one Run, EvalExpressions, top-level Apply, Duplicate) mixed with failing steps (compile failure of a load with and without an earlier pending load, unbound function, runtime failure below let and loop, parse error, wrong-arity Apply, a macro expanding into itself, a macro with a malformed expansion, a stashed lazy argument whose force fails twice and then succeeds): errors returned, values of a global model, rest state and read-back of every global. Position sweep: 71 templates (every sub-form position of literals, templates, special forms, infix constructs, declarations, higher-order builtins) x 16 failing forms (6 that fail to compile, a host error, a host panic, unbound function/variable, index, division, type error, a macro that expands into itself, a macro whose expansion fails to compile, a failure 30 calls deep): the evaluation must fail, the VM be at rest, earlier definitions survive, nothing after the failure run, and a battery (definitions, loops, recursion, a new macro, range/++, a lazy formal, a misplaced break that must be rejected, an infix loop) answer as usual. " +
+			"For each program the fault-free run counts the n dynamic executions of inj; then for EVERY k<=n and each failure kind (host function returns an error; Go panic inside the host function) the program is run in a fresh interpreter with the k-th inj failing; additionally every static fault point is replaced by a form that fails to compile, a parse error is appended, and (thorough) every VM instruction index k of short programs is failed through the step hook. Host-API sequences of 24 steps (EvalString, LoadString+Run, several loads before one Run, EvalExpressions, top-level Apply, Duplicate) mixed with failing steps (compile failure of a load with and without an earlier pending load, unbound function, runtime failure below let and loop, parse error, wrong-arity Apply, a macro expanding into itself, a macro with a malformed expansion, a stashed lazy argument whose force fails twice and then succeeds): errors returned, values of a global model, rest state and read-back of every global. Position sweep: 71 templates (every sub-form position of literals, templates, special forms, infix constructs, declarations, higher-order builtins) x 21 failing forms (6 that fail to compile, a host error, a host panic, unbound function/variable, index, division, type error, a macro that expands into itself, a macro whose expansion fails to compile, a failure 30 calls deep, a hash lookup whose computed key fails with and without a default, a macro / function / typed function defined again with a body that does not compile — the earlier definitions must still answer): the evaluation must fail, the VM be at rest, earlier definitions survive, nothing after the failure run, and a battery (definitions, loops, recursion, a new macro, range/++, a lazy formal, a misplaced break that must be rejected, an infix loop) answer as usual. " +
 			"Oracles: error returned and names the injected id (never a value), trace up to the failure equals the reference's, VM at rest, and a follow-up battery (every global read back, every global function called, new definitions, loop, let, recursion, empty input) answers exactly as computed from the reference evaluator's state after the same k-th failure. " +
 			"non-trivial = distinct (program, k, kind) whose failure happened at call depth>=1 or inside a loop/let/try, counted per program text",
 		Assumptions: []string{
@@ -157,7 +157,7 @@ var c05Pos = []string{
 	"(+ 1 X)", "(+ 1 (+ 2 X))", "(str X)", "(aget [1 2] X)", "(hset (hash) a: X)", "(first [X])", "(not X)", "(len [X X])", "(idw X)", "(eval (quote X))", "(eval X)",
 }
 
-var c05Faults = []string{"(let)", "(cond)", "(for)", "(and)", "(quote)", "(fn)", "(boom 7)", "(pboom 7)", "(undefinedfn9 1)", "(aget [1] 9)", "(/ 1 0)", "undefinedvar9", "(+ 1 \"s\")", "(forever9 1)", "(badm9 1)", "(deepfail9 30)"}
+var c05Faults = []string{"(let)", "(cond)", "(for)", "(and)", "(quote)", "(fn)", "(boom 7)", "(pboom 7)", "(undefinedfn9 1)", "(aget [1] 9)", "(/ 1 0)", "undefinedvar9", "(+ 1 \"s\")", "(forever9 1)", "(badm9 1)", "(deepfail9 30)", "(hget (hash a: 1) (quote (car 5)) 7)", "(hget (hash a: 1) (quote (car 5)))", "(defmac keepm9 [x] (let [a] 1))", "(defn keepf9 [x] (let [a] 1))", "(func keepf9 [x:int64] [r:int64] (let [a] 1))"}
 
 func c05Sweep(c *core.Ctx, k int) *core.Result {
 	pos, fault := c05Pos[k/len(c05Faults)], c05Faults[k%len(c05Faults)]
@@ -178,7 +178,7 @@ func c05Sweep(c *core.Ctx, k int) *core.Result {
 		res.Verdict, res.Key, res.Detail = core.Inconclusive, "template-fails-with-a-healthy-operand", OutStr(oc)
 		return res
 	}
-	c05SweepSetup := "(def before9 1) (defmac forever9 [x] ^(forever9 ~x)) (defmac badm9 [x] ^(let [q] ~x)) (defn deepfail9 [n] (cond (<= n 0) (aget [1] 9) (+ 1 (deepfail9 (- n 1)))))\n"
+	c05SweepSetup := "(def before9 1) (defmac forever9 [x] ^(forever9 ~x)) (defmac badm9 [x] ^(let [q] ~x)) (defmac keepm9 [x] ^(+ 100 ~x)) (defn keepf9 [x] (+ 200 x)) (defn deepfail9 [n] (cond (<= n 0) (aget [1] 9) (+ 1 (deepfail9 (- n 1)))))\n"
 	s.Eval(c05SweepSetup, 0)
 	o := s.Eval(text, 200000)
 	res.Evals++
@@ -206,6 +206,7 @@ func c05Sweep(c *core.Ctx, k int) *core.Result {
 	}
 	sweepBattery := append(append([]struct{ text, want string }{}, c05Generic...), []struct{ text, want string }{
 		{"(defmac zm9 [x] ^(+ 1 ~x)) (zm9 4)\n", "5"},
+		{"(list (keepm9 1) (keepf9 1))\n", "(101 201)"},
 		{"(def zc9 0) (range k v [1 2] (set zc9 (+ zc9 v))) (++ zc9) zc9\n", "4"},
 		{"(defn zl9 [#x] (force #x)) (zl9 (+ 20 22))\n", "42"},
 		{"(defn zbrk9 [] (break))\n", "ERR"},
